@@ -138,6 +138,14 @@ def exec_real(case, part):
         ps = path
     else:
         ps = samples
+    if case.get("foreign_pack"):
+        # an unrelated user call earlier in the same process: packing some samples in other units must not change what
+        # the sampler computes afterwards (process-wide defaults must not be written to)
+        import astropy.units as u
+
+        other = pb.make_samples(ROWS[:2])
+        other.pack(units={"P": u.yr, "omega": u.deg, "M0": u.deg})
+        other.pack(units={"P": u.hour}, nonlinear_only=False)
     try:
         if case["api"] == "mll":
             out = np.array(joker.marginal_ln_likelihood(data, ps, n_batches=case["n_batches"], in_memory=case["path"] == "inmem"))
@@ -319,6 +327,8 @@ def build(quick):
                     nbs = [None, 2, N + 1]
                 for nb in nbs:
                     real.append(dict(kind="real", config=cfg, api=api, path=path, n_batches=nb, pool=["serial"]))
+                    if api == "mll" and nb in (None, 2):
+                        real.append(dict(kind="real", config=cfg, api=api, path=path, n_batches=nb, pool=["serial"], foreign_pack=True))
                     if api == "rej_rand":
                         real.append(dict(kind="real", config=cfg, api=api, path=path, n_batches=nb, pool=["serial"], n_prior=N - 2))
         # ModelPool x real kernel: a slice (each chunk rebuilds a helper ~1 s)
